@@ -406,3 +406,55 @@ V("C20-b6", "C20", (EITEM, "        return len(list(items_with_the_same_name))",
 V("C20-t1", "C20", (EITEM, "        self.set_attributes(**{k: v for k, v in kwargs.items() if v is not None})\n        self._set_defaults_at_init()\n",
                     "        given = {k: v for k, v in kwargs.items() if v is not None}\n        self.set_attributes(**given)\n        self._set_defaults_at_init()\n"),
   "silent", "")
+
+
+# ---------------------------------------------------------------------------------------------- seeded changes as variants
+# The independent sub-agent changes kept under /verif/seeded and the reversals of the repaired defects are replayed in
+# the thorough tier as well: each must make its property's check fire (rule ids are recorded in seeded/MATRIX.json).
+import glob as _glob
+import os as _os
+
+_SEEDED = _os.path.join(_os.path.dirname(_os.path.dirname(_os.path.abspath(__file__))), "seeded")
+
+# repaired defect (subject prefix of the fix commit) -> properties whose checks must fire when it is re-introduced
+REVERSALS = {
+    "fix: pad logical record segments": ["C15"],
+    "fix: accept every validated visible record length": ["C15"],
+    "fix: do not append unflagged pad bytes": ["C16", "C15"],
+    "fix: write a count of 0": ["C04", "C12"],
+    "fix: reject a list passed as the value of a single-valued": ["C04"],
+    "fix: store the validated unit string": ["C05"],
+    "fix: encode IDENT-typed fields": ["C06", "C12"],
+    "fix: do not memoise encoded values": ["C14", "C06"],
+    "fix: refresh an item's OBNAME bytes": ["C14", "C07"],
+    "fix: apply the row window in the structured-array fast path": ["C11"],
+    "fix: keep data chunks in native byte order": ["C03", "C12"],
+    "fix: do not keep the data passed to one write call": ["C14"],
+    "fix: assign the first origin's reference only": ["C18", "C07"],
+    "fix: refuse to share one EFLR set": ["C18"],
+    "fix: register an item with its set only after": ["C20"],
+    "fix: compute index spacing of integer channels": ["C13"],
+    "fix: refuse to load data sets with different numbers of rows": ["C12"],
+    "fix: refuse references to objects of another logical file": ["C07"],
+    "fix: refuse no-format frame data whose NO-FORMAT object": ["C07"],
+}
+
+
+def seeded_variants(prop):
+    out = []
+    for d in sorted(_glob.glob(_os.path.join(_SEEDED, f"{prop}-m*"))):
+        pf = _os.path.join(d, "patch.diff")
+        if _os.path.exists(pf):
+            out.append({"id": "seeded:" + _os.path.basename(d), "prop": prop, "edits": [("@patch", pf, False)],
+                        "expect": ["any"], "what": "independent sub-agent change (see meta.json)"})
+    mpath = _os.path.join(_SEEDED, "_fix_reversals", "MATRIX.json")
+    if _os.path.exists(mpath):
+        import json as _json
+        m = _json.load(open(mpath))
+        for commit, info in sorted(m.items()):
+            for prefix, props in REVERSALS.items():
+                if info.get("subject", "").startswith(prefix) and prop in props:
+                    pf = _os.path.join(_SEEDED, "_fix_reversals", commit + ".diff")
+                    out.append({"id": f"reversal:{commit}", "prop": prop, "edits": [("@patch", pf, True)],
+                                "expect": ["any"], "what": "re-introduces the repaired defect: " + info["subject"]})
+    return out
